@@ -21,6 +21,7 @@ import (
 	"time"
 
 	"github.com/pion/logging"
+	"github.com/pion/stun/v3"
 	"pgregory.net/rapid"
 )
 
@@ -446,7 +447,30 @@ func TestVerif_C13_RefCountThroughTCPMux(t *testing.T) {
 		mux.mu.Lock()
 		under, _ := mux.getConn("ufragT", false, localIP)
 		mux.mu.Unlock()
+		// one peer is connected, so that the handles have somebody to write to
+		ca, cb := net.Pipe()
+		remote := &net.TCPAddr{IP: net.IPv4(198, 51, 100, 9), Port: 41000}
+		peer := &c15Client{id: 0, conn: ca, remote: remote, kind: "valid", ufrag: "ufragT", done: make(chan struct{})}
+		go peer.reader()
+		defer ca.Close() //nolint:errcheck
+		ln.ch <- &c15Conn{Conn: cb, local: &net.TCPAddr{IP: localIP, Port: 8443}, remote: remote}
+		_ = ca.SetWriteDeadline(time.Now().Add(20 * time.Second))
+		_, _ = ca.Write(c15Frame(c15StunBinding("ufragT:peer", true, stun.MethodBinding)))
+		for d := time.Now().Add(20 * time.Second); time.Now().Before(d); {
+			under.mu.Lock()
+			_, has := under.conns[remote.String()]
+			under.mu.Unlock()
+			if has {
+				break
+			}
+			time.Sleep(50 * time.Microsecond)
+		}
 		for k, idx := range order {
+			abortStyle := rapid.Bool().Draw(rt, "closeLikeACandidate")
+			if abortStyle {
+				// what a candidate does when it goes away: expire its deadlines, then close
+				_ = hs[idx].SetDeadline(time.Now())
+			}
 			_ = hs[idx].Close()
 			if rapid.Bool().Draw(rt, "twice") {
 				_ = hs[idx].Close()
@@ -459,6 +483,9 @@ func TestVerif_C13_RefCountThroughTCPMux(t *testing.T) {
 				for _, j := range order[k+1:] {
 					if err := hs[j].SetReadDeadline(time.Now().Add(time.Second)); err != nil {
 						st.Fail(rt, "C13/refcount/sibling-disturbed", "tcp mux: sibling handle unusable after another handle closed: %v", err)
+					}
+					if _, err := hs[j].WriteTo([]byte("still here"), remote); err != nil {
+						st.Fail(rt, "C13/refcount/sibling-write-failed", "tcp mux: write on a sibling handle failed after another handle was closed (candidate-style=%v): %v", abortStyle, err)
 					}
 				}
 				if err := hs[idx].SetReadDeadline(time.Now()); !errors.Is(err, io.ErrClosedPipe) {
